@@ -7,7 +7,8 @@
 (*                                                                         *)
 (* Design model.  Payload strings are sequences over an alphabet of          *)
 (* character classes that matter to some binding (separators of URLs, HTML   *)
-(* and XML, escape characters, white space, non-ASCII).  Pack writes the     *)
+(* and XML, escape characters, white space, non-ASCII, look-alikes of the    *)
+(* escapes and of the form template's own placeholders).  Pack writes the   *)
 (* wire as a sequence of tokens: structural separators are distinct tokens   *)
 (* ("AMP", "EQ", "QM", "QUOT", ...), payload characters are either left      *)
 (* alone or escaped, exactly as the binding's escaping rule says.  TLC       *)
